@@ -13,7 +13,7 @@ Your task: make ONE small, realistic source change (the kind of regression a dev
  (3) the breakage needs something specific to manifest (a particular input shape, option, configuration, order, thread count or schedule) rather than breaking every use; it must not be detectable by simply running the tool on a trivial input.
 Do not add new files to the source tree other than your SEED directory; do not touch code guarded by cfg(ast_grep_verif) (you may change the ordinary code around it). {extra}
 
-Then produce a demonstration that the property is violated by the modified code and NOT by the original code: a shell script (using the built binary /tmp/wt-{pid}/target/debug/ast-grep, ALWAYS wrapped in `timeout 20` because the CLI can hang if a worker thread panics) or a tiny Rust program/test kept OUTSIDE the source tree under /tmp/wt-{pid}/SEED/ (a small cargo project with path dependencies on /tmp/wt-{pid}/crates/*, its own [workspace] table, built with --offline and CARGO_TARGET_DIR=/tmp/wt-{pid}/target; copy /tmp/wt-{pid}/Cargo.lock next to its Cargo.toml first). Run it against the modified build and (via `git stash` / `git stash pop`, rebuilding) against the original build, and record both outputs.
+Then produce a demonstration that the property is violated by the modified code and NOT by the original code: a shell script (using the built binary /tmp/wt-{pid}/target/debug/ast-grep, ALWAYS wrapped in `timeout 20` because the CLI can hang if a worker thread panics) or a tiny Rust program/test kept OUTSIDE the source tree under /tmp/wt-{pid}/SEED/ (a small cargo project with path dependencies on /tmp/wt-{pid}/crates/*, its own [workspace] table, built with --offline and CARGO_TARGET_DIR=/tmp/wt-{pid}/target; copy /tmp/wt-{pid}/Cargo.lock next to its Cargo.toml first). Run it against the modified build and against the original build (to get the original, save your patch, run `git apply -R` on it, rebuild, run, then `git apply` it again and rebuild; do NOT use `git stash`: the stash is shared between worktrees), and record both outputs.
 
 Deliverables (all in /tmp/wt-{pid}/SEED/):
  - patch.diff : output of `git -C /tmp/wt-{pid} diff -- crates` (source changes only),
